@@ -149,11 +149,6 @@ def evaluate(ck, recs):
             f["spec_violated"] = True
             f["theorem_or_correspondence"] = "generator.stateExecuter.ExecuteTransaction vs framework.ABIHandler.ExecuteTransaction"
             ck.failures.append(f)
-    # the scenario with an uncertified parameter change (commits for H-1 and H pooled, maxHeightPrecommitted >= H) must have
-    # been exercised whenever acceptance cases were generated: its sealed aggregate commit is compared with the bound H-1
-    if acc and not any(r.get("pendingparams") and r.get("paramsh", 0) > 0 and r.get("precommitted", 0) >= r.get("paramsh", 0)
-                       and any("aggregateCommitBound" in fl for fl in (r.get("fields") or [])) for r in acc):
-        ck.fail_obligation("harness-setup", "the pending-parameter-change acceptance scenario was not exercised")
     rounds = []
     for r in acc:
         for i in range(len(r["forged"])):
@@ -217,6 +212,12 @@ def run(ck):
     if r1 is None:
         return
     recs += r1
+    # floor (generated runs only, not replays): the scenario with an uncertified parameter change (commits for H-1 and H pooled,
+    # maxHeightPrecommitted >= H) must have been exercised: its sealed aggregate commit is compared with the bound H-1
+    if not any(r.get("k") == "acc" and not r.get("fail") and r.get("pendingparams") and r.get("paramsh", 0) > 0
+               and r.get("precommitted", 0) >= r.get("paramsh", 0)
+               and any("aggregateCommitBound" in fl for fl in (r.get("fields") or [])) for r in r1):
+        ck.fail_obligation("harness-setup", "the pending-parameter-change acceptance scenario was not exercised")
     evaluate(ck, recs)
     for k in ("sel", "gen", "acc"):
         for r in [x for x in r1 if x["k"] == k][3:4]:
